@@ -258,7 +258,7 @@ def tiny_cases(draw, n=14):
 
 CLAUSES = [
     Clause('generated-languages', check_case, kind='random', strategy=lambda: cases(12),
-           budget={'quick': 1200, 'thorough': 16000}),
+           budget={'quick': 5000, 'thorough': 40000}),
     Clause('tiny-language', check_case, kind='random', strategy=lambda: tiny_cases(14),
-           budget={'quick': 500, 'thorough': 6000}),
+           budget={'quick': 2000, 'thorough': 15000}),
 ]
